@@ -37,6 +37,11 @@ func buildHistory(rng *cq.Rng, events [][]byte, cacheSize uint16) (*histRun, str
 		if v+uint64(k) > uint64(len(events)) {
 			k = len(events) - int(v)
 		}
+		if cacheSize < 64 {
+			// a bulk needs the nodes it froze earlier in the same call to be still in the write cache (they are persisted
+			// only after the call): with a write cache far below the production size (300) only single insertions are legal
+			k = 1
+		}
 		if rng.Intn(6) == 0 {
 			// an insertion that is computed but never persisted (its apply was abandoned): the same versions are then
 			// given to the events of the committed log; nothing of the lost call may survive in the tree's caches
@@ -51,7 +56,7 @@ func buildHistory(rng *cq.Rng, events [][]byte, cacheSize uint16) (*histRun, str
 			}
 			split = append(split, fmt.Sprintf("lost%d", k))
 		}
-		if k == 1 && rng.Intn(2) == 0 {
+		if k == 1 && (rng.Intn(2) == 0 || cacheSize < 64) {
 			d, muts, err := tree.Add(events[v], v)
 			if err != nil {
 				panic(err)
